@@ -110,7 +110,12 @@ func genC04(seed uint64, withSpec bool) *Scenario {
 	g := &Gen{r: r}
 	sc := &Scenario{Property: "C04", GenSeed: seed, Seed: r.U64(), Pool: swarmPool(r)}
 	n := pick(r, []int{1, 2, 3, 3, 4, 5, 6, 8, 10, 15, 25, 40})
-	v := newVocab(g, r.Range(1, 5), r.Range(1, 3), r.Range(1, 2), 3)
+	maxDepth := 3
+	if deep() {
+		n = pick(r, []int{2, 3, 5, 8, 12, 20, 40, 70, 120})
+		maxDepth = 4
+	}
+	v := newVocab(g, r.Range(1, 5), r.Range(1, 3), r.Range(1, 2), maxDepth)
 	// swarm: the operation mix varies per run
 	wAgainst, wRec, wNR, wParam := r.Range(1, 6), r.Range(0, 4), r.Range(0, 2), r.Range(0, 4)
 	wSpec := 0
